@@ -66,3 +66,62 @@ package healthcheck
 //@   requires stateShape(s)
 //@   ensures copy: forall a string :: (a in result) <==> (a in s.healthy)
 //@   ensures isfresh: fresh(result)
+
+// ---- passive filter (property C24) --------------------------------------------------------
+//
+// Time is the ghost reading f.clk.now of a monotone clock (contracts/externs/time_clock.spec).
+// The failures recorded for a host are kept oldest first; a call to Failed drops the prefix that
+// lies more than FailTimeout before now, appends now, and marks the host unhealthy as of now iff
+// at least Fails failures remain, i.e. iff at least Fails recorded failures lie within FailTimeout
+// of this one. Run filters out exactly the hosts marked no more than FailTimeout ago.
+
+//@ specfunc pfshape(f *passiveFilter) bool = f != nil && f.unhealthy != nil && f.failures != nil && f.clk != nil && f.config.Fails >= 1 && f.config.FailTimeout >= 0
+
+//@ lockinv passiveFilter.Mutex self f guards contents unhealthy, contents failures, allmem time.Time
+//@   invariant sorted: forall a string, i int, j int :: (a in f.failures) && 0 <= i && i <= j && j < len(f.failures[a]) ==> f.failures[a][i] <= f.failures[a][j]
+//@   invariant past: forall a string, i int :: (a in f.failures) && 0 <= i && i < len(f.failures[a]) ==> f.failures[a][i] <= f.clk.now
+//@   invariant own_array: forall a string, b string :: (a in f.failures) && (b in f.failures) && a != b && base(f.failures[a]) != 0 ==> base(f.failures[a]) != base(f.failures[b])
+//@   invariant wf: forall a string :: (a in f.failures) ==> 0 <= len(f.failures[a]) && len(f.failures[a]) <= cap(f.failures[a]) && 0 <= offset(f.failures[a]) && (base(f.failures[a]) == 0 || allocated(base(f.failures[a])))
+//@   invariant marked_past: forall a string :: (a in f.unhealthy) ==> f.unhealthy[a] <= f.clk.now
+
+//@ func passiveFilter.Failed
+//@   requires pfshape(f)
+//@   modifies map f.unhealthy, map f.failures, allmem time.Time, f.clk.now
+//@   ensures recorded: (addr in f.failures) && len(f.failures[addr]) >= 1 && f.failures[addr][len(f.failures[addr]) - 1] == f.clk.now
+//@   ensures dropped_count: 0 <= old(len(f.failures[addr])) + 1 - len(f.failures[addr]) && len(f.failures[addr]) >= 1
+//@   ensures dropped_expired: forall i int :: 0 <= i && i < old(len(f.failures[addr])) + 1 - len(f.failures[addr]) ==> f.clk.now - old(f.failures[addr][i]) > f.config.FailTimeout
+//@   ensures kept: forall i int, j int :: 0 <= i && i < len(f.failures[addr]) - 1 && j == i + old(len(f.failures[addr])) + 1 - len(f.failures[addr]) ==> f.failures[addr][i] == old(f.failures[addr][j])
+//@   ensures kept_in_window: forall i int :: 0 <= i && i < len(f.failures[addr]) ==> f.clk.now - f.failures[addr][i] <= f.config.FailTimeout
+//@   ensures marked: len(f.failures[addr]) >= f.config.Fails ==> (addr in f.unhealthy) && f.unhealthy[addr] == f.clk.now
+//@   ensures not_marked: len(f.failures[addr]) < f.config.Fails ==> ((addr in f.unhealthy) <==> old(addr in f.unhealthy)) && f.unhealthy[addr] == old(f.unhealthy[addr])
+//@   ensures others: forall b string :: b != addr ==> ((b in f.unhealthy) <==> old(b in f.unhealthy)) && f.unhealthy[b] == old(f.unhealthy[b]) && ((b in f.failures) <==> old(b in f.failures))
+//@   loop 0 invariant suffix: base(failures) == old(base(f.failures[addr])) && offset(failures) + len(failures) == old(offset(f.failures[addr]) + len(f.failures[addr])) && len(failures) >= 0 && len(failures) <= old(len(f.failures[addr])) && cap(failures) - len(failures) == old(cap(f.failures[addr]) - len(f.failures[addr]))
+//@   loop 0 invariant local_sorted: forall i int, j int :: 0 <= i && i <= j && j < len(failures) ==> failures[i] <= failures[j]
+//@   loop 0 invariant local_past: forall i int :: 0 <= i && i < len(failures) ==> failures[i] <= now
+//@   loop 0 invariant expired: forall i int :: 0 <= i && i < old(len(f.failures[addr])) - len(failures) ==> now - old(f.failures[addr][i]) > f.config.FailTimeout
+
+// Run returns the hosts of addrs that are not marked, or whose mark is older than FailTimeout;
+// the clock may advance during the call, so "now" is any reading between entry and exit.
+//@ func passiveFilter.Run
+//@   requires pfshape(f) && addrs != nil
+//@   modifies map f.unhealthy, f.clk.now
+//@   ensures subset: forall a string :: (a in result) ==> (a in addrs)
+//@   ensures unmarked_pass: forall a string :: (a in addrs) && !old(a in f.unhealthy) ==> (a in result)
+//@   ensures expired_pass: forall a string :: (a in addrs) && old(a in f.unhealthy) && old(f.clk.now) - old(f.unhealthy[a]) > f.config.FailTimeout ==> (a in result)
+//@   ensures recent_filtered: forall a string :: old(a in f.unhealthy) && f.clk.now - old(f.unhealthy[a]) <= f.config.FailTimeout ==> !(a in result)
+//@   ensures marks_kept: forall a string :: (a in f.unhealthy) ==> old(a in f.unhealthy) && f.unhealthy[a] == old(f.unhealthy[a])
+//@   loop 0 invariant subset: forall a string :: (a in healthy) ==> (a in addrs)
+//@   loop 0 invariant untouched: forall a string :: (a in addrs) && !(old(a in f.unhealthy) && seen0(a)) ==> (a in healthy)
+//@   loop 0 invariant expired_pass: forall a string :: (a in addrs) && old(a in f.unhealthy) && old(f.clk.now) - old(f.unhealthy[a]) > f.config.FailTimeout ==> (a in healthy)
+//@   loop 0 invariant recent_filtered: forall a string :: seen0(a) && old(a in f.unhealthy) && f.clk.now - old(f.unhealthy[a]) <= f.config.FailTimeout ==> !(a in healthy)
+//@   loop 0 invariant marks_kept: forall a string :: ((a in f.unhealthy) ==> old(a in f.unhealthy) && f.unhealthy[a] == old(f.unhealthy[a])) && (old(a in f.unhealthy) && !seen0(a) ==> (a in f.unhealthy))
+//@   loop 0 invariant clock: f.clk.now >= old(f.clk.now)
+//@   loop 0 invariant nonnil: healthy != nil
+//@   loop 0 invariant isfresh: fresh(healthy)
+
+// A passively checked list never resolves to the empty set while the underlying list has hosts.
+//@ func Passive.Resolve
+//@   requires p != nil && p.hosts != nil && p.filter != nil
+//@   modifies *
+//@   ensures from_hosts: forall a string :: (a in result) ==> (a in p.hosts.resolved)
+//@   ensures never_empty: len(p.hosts.resolved) > 0 ==> len(result) > 0
